@@ -117,8 +117,7 @@ def run_threads(case):
     import websocket
 
     obs = Obs()
-    sched = simkit.Sched(choices=case.get("choices", []), preempt=case.get("preempt"), horizon=500.0, repo=REPO, max_steps=6_000_000 if case.get("opcodes") else 600000,
-                         opcodes=bool(case.get("opcodes")))
+    sched = simkit.Sched(choices=case.get("choices", []), preempt=case.get("preempt"), horizon=500.0, repo=REPO, max_steps=600000)
     net = simkit.SimNet(sched)
     stream_specs = case.get("stream", [])
     wire_in, frames_in, ends_in = rx.wire_of(stream_specs) if stream_specs else (b"", [], [])
@@ -361,10 +360,6 @@ def jobs(tier, seed):
         for sh in range(4 if tier == "quick" else 16):
             out.append({"name": f"preempt-{fi}-{sh}", "kind": "preempt", "fixed": fi, "shard": sh, "of": 4 if tier == "quick" else 16,
                         "stride": 7 if tier == "quick" else 1})
-    if tier != "quick":
-        for fi in (3, 4):  # bytecode-level sweeps of the two mixed sender/receiver scenarios
-            for sh in range(16):
-                out.append({"name": f"preempt-op-{fi}-{sh}", "kind": "preempt", "fixed": fi, "shard": sh, "of": 16, "stride": 1, "opcodes": True})
     return out
 
 
@@ -383,8 +378,6 @@ def run_job(job, coll):
         hyp_run(coll, partial_cases(), run_case, job["seed"], job["n"])
     elif k == "preempt":
         base = FIXED[job["fixed"]]
-        if job.get("opcodes"):
-            base = dict(base, opcodes=True)
         # dry run with tracing on to learn how many line steps the scenario has
         sched_probe = dict(base, preempt={"900000000": 1})
         import websocket  # noqa: F401
